@@ -366,9 +366,17 @@ func (c *clientImpl) listFromShard(ctx context.Context, minKeyInclusive string, 
 		SecondaryIndexName: secondaryIndexName,
 	}
 
+	// Never block on a consumer that has given up: once the context is done nobody may be reading anymore
+	send := func(res ListResult) {
+		select {
+		case ch <- res:
+		case <-ctx.Done():
+		}
+	}
+
 	client, err := c.executor.ExecuteList(ctx, request)
 	if err != nil {
-		ch <- ListResult{Err: err}
+		send(ListResult{Err: err})
 		return
 	}
 
@@ -379,11 +387,11 @@ func (c *clientImpl) listFromShard(ctx context.Context, minKeyInclusive string, 
 				return
 			}
 
-			ch <- ListResult{Err: err}
+			send(ListResult{Err: err})
 			return
 		}
 
-		ch <- ListResult{Keys: response.Keys}
+		send(ListResult{Keys: response.Keys})
 	}
 }
 
@@ -413,7 +421,9 @@ func (c *clientImpl) List(ctx context.Context, minKeyInclusive string, maxKeyExc
 		}
 
 		go func() {
-			_ = wg.Wait(ctx)
+			// The channel can only be closed after every shard goroutine is done writing to it,
+			// also when the context gets canceled in the meantime
+			_ = wg.Wait(context.Background())
 			close(ch)
 		}()
 	}
